@@ -8,7 +8,7 @@ E2_COMPONENTS = {"real": ["cppcms::impl::mem_cache<thread_settings> (src/cache_s
                  "stub": ["clock (time() read by the cache) - simulated, advanced by plan ops"]}
 
 PROPS = {
- "C07": dict(engine="E2 cache-seq", src="e2_cache_seq", variants=["asan"], level="exploration",
+ "C07": dict(repo_probes=['cache.bad_alloc_clears_cache'], engine="E2 cache-seq", src="e2_cache_seq", variants=["asan"], level="exploration",
    seconds={"quick": 45, "thorough": 600},
    rule="cases = operation sequences over the cache API (store/fetch/rise/remove/clear/stats/clock-advance; through base_cache and through cache_interface with nested triggers_recorders) "
         "checked op by op against a sequential reference model; the first 16^3 (quick) / 16^5 (thorough) indices enumerate ALL sequences of that length over a 16-op alphabet on 2 keys/1 trigger, "
@@ -26,7 +26,7 @@ PROPS = {
    note="Trusts the reference model (harness/cache_model.h) and ASan/UBSan; shared-memory pressure outcomes are relaxed narrowly (see assumptions in evidence).",
    technique="deterministic simulation (simulated clock) + sequential reference model, seeded search with minimised replay; bounded-exhaustive slice",
    design_ref="DESIGN.md s4 C07, s3 E2"),
- "C08": dict(engine="E2 cache-seq", src="e2_cache_seq", variants=["asan"], level="exploration",
+ "C08": dict(repo_probes=['cache.evict_expired_first', 'cache.evict_lru_tail', 'cache.bad_alloc_clears_cache'], engine="E2 cache-seq", src="e2_cache_seq", variants=["asan"], level="exploration",
    seconds={"quick": 45, "thorough": 600},
    rule="cases = operation sequences as in C07 with limit 1..8 and key alphabets larger than the limit, deadlines straddling the simulated clock, value sizes up to beyond shared memory, long fill/clear cycles on the process_shared back-end; "
         "stats and every fetch compared with a model implementing 'expired first, then LRU tail'; after each clear() of the shared segment the free shared memory must be back at its baseline (minus a slack of 64 page headers for a different page structure); 'storm' operations issue bursts of stores whose long keys exhaust the segment while a node is being built. "
@@ -58,7 +58,7 @@ PROPS = {
    note="Trusts TSan's happens-before analysis, the sequential cache model and the interception of all synchronisation the cache uses (pthread mutex/rwlock).",
    technique="deterministic simulation: seeded thread scheduler over real threads (parked at intercepted lock operations) + TSan + linearizability checking against a sequential model",
    design_ref="DESIGN.md s4 C09, s3 E3"),
- "C18": dict(engine="E7 crashfs", src="e7_crashfs", variants=["asan"], level="fault_enumeration",
+ "C18": dict(repo_probes=['session_file.crc_mismatch'], engine="E7 crashfs", src="e7_crashfs", variants=["asan"], level="fault_enumeration",
    seconds={"quick": 40, "thorough": 600},
    rule="case = one sampled history (0..6 save/load/remove/gc/clock-advance/planted-garbage ops on two session ids, optional short/interrupted file I/O) followed by a save whose crash states are ENUMERATED on the simulated disk: "
         "every prefix of the sequence of file operations, every byte prefix of a data-area write (all positions up to 600 bytes, else first/last 64, every sector edge +-2 and 64 random), and every subset of the dirty 512-byte sectors when <= 10 are dirty "
@@ -77,7 +77,7 @@ PROPS = {
    technique="deterministic simulation of the file layer with systematic crash-state enumeration (journal replay: write prefixes, torn writes, sector subsets) after seeded histories",
    extra=True,
    design_ref="DESIGN.md s4 C18, s3 E7"),
- "C17": dict(engine="E6 loop", src="e6_loop", variants=["asan", "tsan"], level="exploration",
+ "C17": dict(repo_probes=['io_service.post_while_polling_wakes_loop', 'io_service.cancel_found_timer_armed', 'io_service.woken_by_interrupter'], engine="E6 loop", src="e6_loop", variants=["asan", "tsan"], level="exploration",
    seconds={"quick": 50, "thorough": 700},
    rule="cases = (one loop thread in io_service::run() on reactor epoll|poll|select + 1..4 producer threads issuing post / set_timer_event / cancel_timer_event / set_io_event / cancel_io_events (on the loop thread, or in 1/8 of runs directly cross-thread) / make-descriptor-ready / sleep, "
         "+ 0..2 deadline_timer / stream_socket async_read / async_write chains driven on the loop thread against a peer thread that feeds/drains in pieces, with short reads/writes, EAGAIN, spurious readiness, EINTR; optionally stop() racing the producers) "
@@ -96,7 +96,7 @@ PROPS = {
    note="Trusts the simulated kernel's readiness semantics (level-triggered) and TSan; known finding xthread-cancel-io-lost is listed in known-findings.json.",
    technique="deterministic simulation: seeded thread scheduler + simulated epoll/poll/select, sockets and clock under the real io_service/thread_pool; counting-handler oracle; TSan",
    design_ref="DESIGN.md s4 C17, s3 E6"),
- "C01": dict(engine="E1 wire", src="e1_wire", variants=["asan"], level="exploration",
+ "C01": dict(repo_probes=['fastcgi.record_served_from_cache', 'fastcgi.record_not_yet_complete_in_cache', 'fastcgi.padded_record', 'http.body_bytes_from_header_read_ahead', 'http.next_request_already_in_read_ahead'], engine="E1 wire", src="e1_wire", variants=["asan"], level="exploration",
    seconds={"quick": 50, "thorough": 800},
    rule="case = one real cppcms::service (reactor epoll|poll|select, 1..3 workers, buffer sizes 1..64K) serving 1..5 simulated connections x 1..4 well-formed requests each over http / scgi / fastcgi (sync or async mount, keep-alive / KEEP_CONN sequences), "
         "each request with its own client-side segmentation (whole, few cuts, byte dribble), FastCGI PARAMS/STDIN record sizes and padding, channel capacities and read pace; the transport additionally splits reads/writes, injects EINTR and spurious readiness. "
@@ -112,7 +112,7 @@ PROPS = {
    note="Trusts the harness's own protocol encoders/decoders and request model (harness/wire_proto.h) and the simulated socket semantics.",
    technique="deterministic simulation: real service on simulated sockets/clock/scheduler, seeded segmentation + fault injection, independent request model as oracle",
    design_ref="DESIGN.md s4 C01, s3 E1"),
- "C02": dict(engine="E1 wire", src="e1_wire", variants=["asan"], level="exploration",
+ "C02": dict(repo_probes=['fastcgi.record_not_yet_complete_in_cache', 'http.next_request_already_in_read_ahead'], engine="E1 wire", src="e1_wire", variants=["asan"], level="exploration",
    seconds={"quick": 50, "thorough": 800},
    rule="case = as C01, but at least one connection per run ends with a MALFORMED exchange: a valid encoding mutated by one of ~45 operators (truncate at any offset, bit flips, insert/delete, garbage, negative/huge/non-numeric/duplicate/mismatching Content-Length, endless or oversized headers, bare LF, NUL bytes, "
         "SCGI length lies / missing comma / unterminated last string, FastCGI wrong version/type/role/request id, record and pair length lies, STDIN longer/shorter, GET_VALUES, stray records, PARAMS never closed, declared length over the limit) followed by close, half-close or silence; "
@@ -128,7 +128,7 @@ PROPS = {
    note="Trusts ASan/UBSan, the mutation operators' classification of 'cannot be served', and the simulated socket semantics.",
    technique="deterministic simulation with byte-level fault injection (mutated requests, peer close/half-close/stall), sanitizers + concurrent probe requests as oracle",
    design_ref="DESIGN.md s4 C02, s3 E1"),
- "C03": dict(engine="E1 wire", src="e1_wire", variants=["asan"], level="exploration",
+ "C03": dict(repo_probes=['cgi.nonblocking_write.nothing_accepted', 'cgi.nonblocking_write.partial_with_remainder'], engine="E1 wire", src="e1_wire", variants=["asan"], level="exploration",
    seconds={"quick": 50, "thorough": 800},
    rule="case = a 'writer' application executes a generated script (0..40 writes of 0..200000 bytes incl. byte-at-a-time, flushes, setbuf(k) incl. 0, headers, cookies, content type, io_mode normal|nogzip|raw|asynchronous|asynchronous_raw (raw: own header block written in 1..70-byte pieces), full/partial async buffering, optional page cache key shared between requests) "
         "for http 1.0/1.1 (keep-alive, Content-Length or chunked), scgi, fastcgi; gzip on/off; client channel capacity 1 B..256 KiB and read pace from the plan; every writev may accept any prefix or EAGAIN. "
@@ -143,7 +143,7 @@ PROPS = {
    note="Trusts the harness's de-framers (HTTP chunked/length, CGI, FastCGI records, zlib inflate) and the simulated socket semantics.",
    technique="deterministic simulation: real response stack on simulated sockets with arbitrary partial writes / EAGAIN, independent de-framer + byte pattern oracle",
    design_ref="DESIGN.md s4 C03, s3 E1"),
- "C12": dict(engine="E1 wire", src="e1_wire", variants=["asan"], level="exploration",
+ "C12": dict(repo_probes=['multipart.partial_boundary_match_reemitted'], engine="E1 wire", src="e1_wire", variants=["asan"], level="exploration",
    seconds={"quick": 50, "thorough": 800},
    rule="case = as C01, with 80% of POST/PUT bodies being multipart/form-data: 0..9 parts (quoted/unquoted names, optional filename, optional Content-Type => file vs field), contents 0..300 KB of random bytes / CR-LF-dash runs with planted look-alikes of the delimiter (every proper prefix of CRLF--boundary, delimiter minus last byte at the end, CRLF-- in the middle), "
         "boundaries of 1..70 chars incl. leading '-', sent over http/scgi/fastcgi to sync and async mounts with client segmentation, FastCGI STDIN record sizes, input_buffer_size 1..64K and transport read splitting deciding every parser chunk; file_in_memory_limit 0..128K (spill to temp files); content/multipart limits 1 KB..2 MB. "
@@ -174,7 +174,7 @@ PROPS = {
    note="Trusts the harness's independent base64url decoder and bookkeeping of issued cipher texts; sampling cannot establish cryptographic strength.",
    technique="deterministic simulation (clock, entropy, attacker actor) over save/load histories with a history oracle",
    design_ref="DESIGN.md s4 C05, s3 E5"),
- "C06": dict(engine="E5 session", src="e5_session", variants=["asan"], level="exploration",
+ "C06": dict(repo_probes=['session.save_skipped_fixed_unchanged', 'session.renewal_skipped_below_10_percent'], engine="E5 session", src="e5_session", variants=["asan"], level="exploration",
    seconds={"quick": 40, "thorough": 600},
    rule="case = 1..3 simulated browsers (sequential in plan order, or - 1/3 of multi-browser runs - one scheduled thread per browser plus an environment thread, seeded schedule) issuing 2..32 requests (load; 0..6 of set/erase/clear/expose/hide/age/default_age/expiration/default_expiration/on_server/reset_session; optional clock advance inside the request; save) against one session_pool with location client|server|both, storage memory|files (simulated FS, optional short/interrupted I/O), "
         "expire fixed|renew|browser, client_size_limit flipping cookie/server storage, remove_unknown_cookies on/off; interleaved with clock advances (around deadlines and the 10% renewal boundary), gc, browser restarts and attacker requests (ended ids, path-like / upper-case / short / long / non-hex ids, junk C cookies). "
@@ -190,7 +190,7 @@ PROPS = {
    note="Trusts the reference model of the save policy (DESIGN.md Appendix A) and the cookie-jar semantics of the simulated browsers.",
    technique="deterministic simulation (simulated browsers/cookie jars, clock, entropy, disk faults) with a reference model checked after every request",
    design_ref="DESIGN.md s4 C06, s3 E5"),
- "C10": dict(engine="E4 cache-net", src="e4_cache_net", variants=["asan"], level="exploration",
+ "C10": dict(repo_probes=['cache_over_ip.l1_hit_up_to_date', 'cache_over_ip.l1_hit_refreshed', 'cache_over_ip.l1_hit_gone_on_server', 'messenger.reconnect_and_retry'], engine="E4 cache-net", src="e4_cache_net", variants=["asan"], level="exploration",
    seconds={"quick": 50, "thorough": 800},
    rule="case = 1..2 real cache servers (1..2 I/O threads), 2..3 client nodes (cache_over_ip with no L1 / unlimited L1 / L1 of 1..4 entries, 2 threads each = per-thread connections) on the simulated network (segmentation, channel capacity 1 B..64 KiB), 5..65 operations store/fetch/rise/clear/stats/clock-advance over 1..4 binary keys (incl. 0x7f, control bytes, 70-byte key), "
         "values 0..100 KB incl. NUL bytes, 0..40 triggers incl. the empty name. Mode seq (50%): one operation at a time in plan order by any client thread, every result (value, trigger set, deadline, stats, per-server key counts by the documented hash) must equal the single-copy model. "
